@@ -175,8 +175,8 @@ theorem filter_after_define {Fc : Nat} {σ σD : St} {menv : Env} {ctx : Ctx} {r
     {f : Nat → Value → Value} (gs : GSt)
     (harr : ArrAt σ r st es) (hcb : CallsAs Fc σ cr f) (hd : ctx.callDepth < 899)
     (happ : lookupVar menv "append" = none) (hsc : ∀ i x, es[i]? = some x → Scalar (f i x) = true)
-    (F : Nat) (hF : Fc ≤ F) (hI0 : AccInv σ r cr (filtered f es) 0 σD) :
-    ∃ σ'' rd sd, AccInv σ r cr (filtered f es) es.length σ'' ∧
+    (F : Nat) (hF : Fc ≤ F) (hI0 : AccInv σ (.arr r) cr (filtered f es) 0 σD) :
+    ∃ σ'' rd sd, AccInv σ (.arr r) cr (filtered f es) es.length σ'' ∧
       σ''.heap[σ.heap.size + 5]? = some (.cell (.arr rd) false) ∧ DstArr σ'' rd sd ((es.zipIdx.filter (fun q => truthy (f q.2 q.1))).map (fun q => q.1)) ∧
       (do let p ← execStmts (F + es.length + 11 + 2)
                     { env := mapEnv menv σ, callDepth := ctx.callDepth + 1, path := [0] }
@@ -187,7 +187,7 @@ theorem filter_after_define {Fc : Nat} {σ σD : St} {menv : Env} {ctx : Ctx} {r
   have hloop := forin_loop_run (Fb := F + 10)
     (ctx := { env := mapEnv menv σ, callDepth := ctx.callDepth + 1, path := 2 :: [0] })
     (r := r) (st := st) (es := es) (body := filterLoop) gs
-    (AccInv σ r cr (filtered f es)) (fun _ _ => none)
+    (AccInv σ (.arr r) cr (filtered f es)) (fun _ _ => none)
     (fun _ σ' h => harr.ext h.ext)
     (fun _ σ' h => ⟨σ.heap.size, false, mapEnv_x menv σ, h.cx⟩)
     (by show (ctx.callDepth + 1 == 0) = false; simp)
@@ -232,7 +232,7 @@ theorem filter_run {Fc : Nat} {σ : St} {menv : Env} {ctx : Ctx} {r st cr : Nat}
     (hb : IsArrLikeBound σ menv) (harr : ArrAt σ r st es) (hcb : CallsAs Fc σ cr f) (hd : ctx.callDepth < 899)
     (hwf : WfApp σ) (happ : lookupVar menv "append" = none)
     (hsc : ∀ i x, es[i]? = some x → Scalar (f i x) = true) (F : Nat) (hF : Fc ≤ F) :
-    ∃ σ'' rd sd, AccInv σ r cr (filtered f es) es.length σ'' ∧
+    ∃ σ'' rd sd, AccInv σ (.arr r) cr (filtered f es) es.length σ'' ∧
       σ''.heap[σ.heap.size + 5]? = some (.cell (.arr rd) false) ∧ DstArr σ'' rd sd ((es.zipIdx.filter (fun q => truthy (f q.2 q.1))).map (fun q => q.1)) ∧
       callClosure (F + es.length + 17) ctx ⟨["x", "fn"], false, filterBody, menv⟩ [.arr r, .fn cr] gs σ =
         .ok ((.arr rd, gs), σ'') := by
@@ -250,7 +250,7 @@ theorem filter_run {Fc : Nat} {σ : St} {menv : Env} {ctx : Ctx} {r st cr : Nat}
   have hsz : (pushSt (pushSt (stG σ (Value.arr r) (Value.fn cr)) (Obj.store #[] 1))
       (Obj.arr (stG σ (Value.arr r) (Value.fn cr)).heap.size 0 0)).heap.size = σ.heap.size + 5 := by
     simp [pushSt_size, hG]
-  have hI0 : AccInv σ r cr (filtered f es) 0 (pushSt (pushSt (pushSt (stG σ (Value.arr r) (Value.fn cr)) (Obj.store #[] 1))
+  have hI0 : AccInv σ (.arr r) cr (filtered f es) 0 (pushSt (pushSt (pushSt (stG σ (Value.arr r) (Value.fn cr)) (Obj.store #[] 1))
       (Obj.arr (stG σ (Value.arr r) (Value.fn cr)).heap.size 0 0))
       (Obj.cell (Value.arr ((stG σ (Value.arr r) (Value.fn cr)).heap.size + 1)) false)) := by
     have he : Ext σ (pushSt (pushSt (pushSt (stG σ (Value.arr r) (Value.fn cr)) (Obj.store #[] 1))
